@@ -1,3 +1,268 @@
 package main
 
-func runHTTP(casesPath, tracePath string, shard, shards int) {}
+import (
+	"bufio"
+	"bytes"
+	"crypto/tls"
+	"encoding/json"
+	"fmt"
+	"io"
+	"net"
+	"net/http"
+	"net/url"
+	"os"
+	"sort"
+	"strings"
+	"sync"
+	"time"
+
+	"golang.org/x/net/http2"
+	"golang.org/x/net/http2/h2c"
+	v2 "mosn.io/mosn/pkg/config/v2"
+	"verif/e2e"
+	"verif/vh"
+)
+
+type httpCase struct {
+	Pair   string `json:"pair"`
+	Method string `json:"method"`
+	Uri    string `json:"uri"`
+	Body   int    `json:"body"`
+	Hdr    string `json:"hdr"`
+	Status int    `json:"status"`
+	Rbody  int    `json:"rbody"`
+}
+
+type hdrLine struct{ k, v string }
+
+// headerSet returns the header lines of a kind (prefix distinguishes request and response headers).
+func headerSet(kind, prefix string) []hdrLine {
+	switch kind {
+	case "mixedcase":
+		return []hdrLine{{prefix + "-MiXed-CaSe", "Value With  Two Spaces; q=0.5, x"}}
+	case "empty":
+		return []hdrLine{{prefix + "-Empty", ""}, {prefix + "-After", "z"}}
+	case "multi":
+		return []hdrLine{{prefix + "-Multi", "a"}, {prefix + "-Multi", "b"}, {prefix + "-Other", "a=1; b=2"}}
+	case "long":
+		return []hdrLine{{prefix + "-Long", strings.Repeat("v0123456789", 700)}}
+	}
+	return []hdrLine{{prefix + "-Test-A", "v1"}}
+}
+
+// sameHeaders: every sent field is present with the same values in the same order (names are case-insensitive;
+// a repeated field may arrive as separate lines or as one comma-joined line, RFC 7230 3.2.2).
+func sameHeaders(sent []hdrLine, got http.Header) bool {
+	want := map[string][]string{}
+	var names []string
+	for _, l := range sent {
+		k := strings.ToLower(l.k)
+		if _, ok := want[k]; !ok {
+			names = append(names, k)
+		}
+		want[k] = append(want[k], l.v)
+	}
+	sort.Strings(names)
+	for _, k := range names {
+		var g []string
+		for gk, gv := range got {
+			if strings.ToLower(gk) == k {
+				g = append(g, gv...)
+			}
+		}
+		if strings.Join(g, ", ") != strings.Join(want[k], ", ") {
+			return false
+		}
+	}
+	return true
+}
+
+type seenReq struct {
+	method, uri string
+	hdr         http.Header
+	body        []byte
+	host        string
+}
+
+type recUpstream struct {
+	mu     sync.Mutex
+	seen   chan seenReq
+	status int
+	rhdr   []hdrLine
+	rbody  []byte
+	srv    *http.Server
+	Addr   string
+}
+
+func newRecUpstream() *recUpstream {
+	u := &recUpstream{seen: make(chan seenReq, 16)}
+	ln, err := net.Listen("tcp", "127.0.0.1:0")
+	vh.Must(err, "upstream listen")
+	u.Addr = ln.Addr().String()
+	h := http.HandlerFunc(func(w http.ResponseWriter, r *http.Request) {
+		b, _ := io.ReadAll(r.Body)
+		u.mu.Lock()
+		st, rh, rb := u.status, u.rhdr, u.rbody
+		u.mu.Unlock()
+		u.seen <- seenReq{method: r.Method, uri: r.RequestURI, hdr: r.Header.Clone(), body: b, host: r.Host}
+		for _, l := range rh {
+			w.Header().Add(l.k, l.v)
+		}
+		w.Header().Set("Content-Type", "application/octet-stream")
+		if st != 204 {
+			w.Header().Set("Content-Length", fmt.Sprint(len(rb)))
+		}
+		w.WriteHeader(st)
+		if st != 204 && r.Method != "HEAD" {
+			w.Write(rb)
+		}
+	})
+	u.srv = &http.Server{Handler: h2c.NewHandler(h, &http2.Server{})}
+	go u.srv.Serve(ln)
+	return u
+}
+
+type clientResp struct {
+	ok     bool
+	status int
+	hdr    http.Header
+	body   []byte
+}
+
+// h1 client: the request bytes are written by hand so that the target is exactly the case's string.
+func doH1(addr string, c *httpCase, hdrs []hdrLine, body []byte) clientResp {
+	conn, err := net.DialTimeout("tcp", addr, 10*time.Second)
+	if err != nil {
+		return clientResp{}
+	}
+	defer conn.Close()
+	var b bytes.Buffer
+	fmt.Fprintf(&b, "%s %s HTTP/1.1\r\nHost: fidelity.test\r\n", c.Method, c.Uri)
+	for _, l := range hdrs {
+		fmt.Fprintf(&b, "%s: %s\r\n", l.k, l.v)
+	}
+	if len(body) > 0 || c.Method == "POST" || c.Method == "PUT" {
+		fmt.Fprintf(&b, "Content-Length: %d\r\n", len(body))
+	}
+	b.WriteString("\r\n")
+	b.Write(body)
+	conn.SetDeadline(time.Now().Add(60 * time.Second))
+	if _, err := conn.Write(b.Bytes()); err != nil {
+		return clientResp{}
+	}
+	resp, err := http.ReadResponse(bufio.NewReader(conn), &http.Request{Method: c.Method})
+	if err != nil {
+		return clientResp{}
+	}
+	rb, err := io.ReadAll(resp.Body)
+	if err != nil {
+		return clientResp{}
+	}
+	return clientResp{ok: true, status: resp.StatusCode, hdr: resp.Header, body: rb}
+}
+
+var h2client = &http.Client{Timeout: 60 * time.Second, Transport: &http2.Transport{AllowHTTP: true,
+	DialTLS: func(network, addr string, _ *tls.Config) (net.Conn, error) { return net.Dial(network, addr) }}}
+
+func doH2(addr string, c *httpCase, hdrs []hdrLine, body []byte) clientResp {
+	u, err := url.Parse("http://" + addr + c.Uri)
+	if err != nil {
+		return clientResp{}
+	}
+	var rd io.Reader
+	if len(body) > 0 || c.Method == "POST" || c.Method == "PUT" {
+		rd = bytes.NewReader(body)
+	}
+	req, err := http.NewRequest(c.Method, u.String(), rd)
+	if err != nil {
+		return clientResp{}
+	}
+	req.URL = u
+	req.Host = "fidelity.test"
+	for _, l := range hdrs {
+		req.Header.Add(l.k, l.v)
+	}
+	resp, err := h2client.Do(req)
+	if err != nil {
+		return clientResp{}
+	}
+	defer resp.Body.Close()
+	rb, err := io.ReadAll(resp.Body)
+	if err != nil {
+		return clientResp{}
+	}
+	return clientResp{ok: true, status: resp.StatusCode, hdr: resp.Header, body: rb}
+}
+
+func runHTTP(casesPath, tracePath string, shard, shards int) {
+	tmp, _ := os.MkdirTemp("", "c01-http-")
+	defer os.RemoveAll(tmp)
+	up := newRecUpstream()
+	defer up.srv.Close()
+	proto := map[byte]string{'1': "Http1", '2': "Http2"}
+	pairs := []string{"h1h1", "h1h2", "h2h1", "h2h2"}
+	addrs := map[string]string{}
+	var lst []v2.Listener
+	var cl []e2e.ClusterSpec
+	for _, p := range pairs {
+		addrs[p] = e2e.FreeAddr()
+		lst = append(lst, e2e.BuildListener(e2e.ListenerSpec{Name: "c01" + p, Addr: addrs[p], Downstream: proto[p[1]], Upstream: proto[p[3]],
+			Routes: []e2e.RouteSpec{{Prefix: "/", Cluster: "up" + p, TimeoutMs: 60000}}}))
+		cl = append(cl, e2e.ClusterSpec{Name: "up" + p, Hosts: []string{up.Addr}})
+	}
+	m := e2e.StartMosn(e2e.BuildConfig(lst, e2e.BuildClusters(cl), e2e.ScratchLog(tmp)))
+	defer m.Close()
+	for _, p := range pairs {
+		vh.Must(e2e.WaitListen(addrs[p], 10*time.Second), "mosn listener "+p)
+	}
+	tr := vh.NewTrace(tracePath)
+	defer tr.Close()
+	idx, n := 0, 0
+	err := vh.ReadCases(casesPath, func(raw json.RawMessage) error {
+		idx++
+		if idx%shards != shard {
+			return nil
+		}
+		var c httpCase
+		if err := json.Unmarshal(raw, &c); err != nil {
+			return err
+		}
+		g := newGen(vh.Seed(), idx, "c")
+		body := make([]byte, c.Body)
+		g.fill(body)
+		rbody := make([]byte, c.Rbody)
+		newGen(vh.Seed(), idx, "u").fill(rbody)
+		reqH, respH := headerSet(c.Hdr, "X-Req"), headerSet(c.Hdr, "X-Resp")
+		up.mu.Lock()
+		up.status, up.rhdr, up.rbody = c.Status, respH, rbody
+		up.mu.Unlock()
+		for len(up.seen) > 0 {
+			<-up.seen
+		}
+		tr.Emit(vh.Ev{"ev": "req", "case": idx, "pair": c.Pair, "method": c.Method, "uri": c.Uri, "body": c.Body, "hdr": c.Hdr, "status": c.Status, "rbody": c.Rbody})
+		var r clientResp
+		if c.Pair[1] == '1' {
+			r = doH1(addrs[c.Pair], &c, reqH, body)
+		} else {
+			r = doH2(addrs[c.Pair], &c, reqH, body)
+		}
+		// the response (or its absence) is known: whatever the upstream recorded is complete by now
+		select {
+		case s := <-up.seen:
+			tr.Emit(vh.Ev{"ev": "seen", "arrived": true, "method": s.method, "uri": s.uri, "bodyeq": bytes.Equal(s.body, body),
+				"hdreq": sameHeaders(reqH, s.hdr), "host": s.host})
+		default:
+			tr.Emit(vh.Ev{"ev": "seen", "arrived": false, "method": "", "uri": "", "bodyeq": false, "hdreq": false, "host": ""})
+		}
+		wantBody := rbody
+		if c.Method == "HEAD" || c.Status == 204 {
+			wantBody = nil
+		}
+		tr.Emit(vh.Ev{"ev": "resp", "ok": r.ok, "status": r.status, "statuseq": r.status == c.Status, "bodyeq": r.ok && bytes.Equal(r.body, wantBody),
+			"hdreq": r.ok && sameHeaders(respH, r.hdr)})
+		n++
+		return nil
+	})
+	vh.Must(err, "http cases")
+	fmt.Printf("http cases=%d events=%d\n", n, tr.Len())
+}
